@@ -131,17 +131,16 @@ def _reference(case, jump_values, coef, mode, eps=None):
         return times, jpath, dpath
     times = np.concatenate(([0.0], jt, [T]))
     vals = np.concatenate(([0.0], np.cumsum(jv), [jv.sum() if len(jv) else 0.0]))
-    if mode == "maxstep" and eps is not None and eps < T and len(jt):
-        # insert points so that no step (up to the last jump) exceeds eps; inserted points repeat the previous value
+    if mode == "maxstep" and eps is not None and eps < T:
+        # insert points so that no step - up to the maturity, jumps or not - exceeds eps; inserted points repeat the
+        # previous value
         new_t, new_v = [0.0], [0.0]
-        for t, v in zip(times[1:-1], vals[1:-1]):
+        for t, v in zip(times[1:], vals[1:]):
             while t - new_t[-1] > eps * (1 + 1e-12):
                 new_t.append(new_t[-1] + eps)
                 new_v.append(new_v[-1])
             new_t.append(t)
             new_v.append(v)
-        new_t.append(T)
-        new_v.append(new_v[-1])
         times, vals = np.array(new_t), np.array(new_v)
     w = np.array(_extend(case["ws"])[:len(times) - 1], dtype=float)
     dpath = np.concatenate(([0.0], np.cumsum(coef * np.sqrt(np.diff(times)) * w)))
@@ -366,7 +365,7 @@ def body_finer(case):
         nt, nf, nc = fun(None, times.copy(), vals.copy(), cvals.copy())
         results = [(np.asarray(nf, dtype=float), vals), (np.asarray(nc, dtype=float), cvals)]
     nt = np.asarray(nt, dtype=float)
-    steps = np.diff(np.concatenate(([0.0], nt)))
+    steps = np.diff(np.concatenate(([0.0], nt, [T])))  # the caller appends the maturity: that last step counts too
     if np.any(steps > eps * (1 + 1e-9)) and eps < T:
         out.append(Violation(f"{tag}/step-larger-than-the-cap", f"max step {steps.max()} > {eps}; {detail}"))
     if not np.all(steps > -1e-15):
@@ -506,16 +505,14 @@ def body_copula(case):
                 cum = np.cumsum(vals, axis=0) if len(vals) else np.zeros((0, d))
                 last = cum[-1] if len(vals) else np.zeros(d)
                 J = np.vstack([np.zeros(d), cum, last]).T
-                if mode == "maxstep" and eps is not None and eps < T and len(jt):
+                if mode == "maxstep" and eps is not None and eps < T:
                     nt, nJ = [0.0], [np.zeros(d)]
-                    for t, v in zip(times[1:-1], J.T[1:-1]):
+                    for t, v in zip(times[1:], J.T[1:]):  # up to and including the maturity
                         while t - nt[-1] > eps * (1 + 1e-12):
                             nt.append(nt[-1] + eps)
                             nJ.append(nJ[-1])
                         nt.append(t)
                         nJ.append(v)
-                    nt.append(T)
-                    nJ.append(nJ[-1])
                     times, J = np.array(nt), np.array(nJ).T
                 nW = len(times) - 1
                 W = np.array(_extend(case["ws"])[:d * nW], dtype=float).reshape(d, nW)
